@@ -9,7 +9,7 @@ import json, os, shutil, subprocess, sys, tempfile
 VERIF = os.path.dirname(os.path.dirname(os.path.abspath(__file__)))
 REPO = "/repo"
 # further checks that observe a fix besides the property it is recorded under
-ALSO = {"a508b0f": ["C09"], "2736c76": ["C09", "C19"], "1b4ca61": ["C19"], "ee6595c": ["C04"], "81c539e": ["C09"], "2022f49": ["C01", "C07"], "30e38fa": ["C15"]}
+ALSO = {"a508b0f": ["C09"], "2736c76": ["C09", "C19"], "1b4ca61": ["C19"], "ee6595c": ["C04"], "81c539e": ["C09"], "2022f49": ["C01", "C07"], "30e38fa": ["C15"], "20a2388": ["C17"]}
 
 
 def sh(cmd, cwd, env=None, timeout=3600):
